@@ -74,22 +74,6 @@ theorem wrappedLines_chars (ls : List Text) (m : Nat) : ∀ y ∈ SdlPrintT.wrap
 
 /-! ### the predicate and the layout theorem -/
 
-/-- the lines `print_description` lays out at the given indentation (`wrapped_lines(desc.split("\n"), 120 - len(indent))`) -/
-def wrappedOf (indentLen : Nat) (d : String) : List Text := SdlPrintT.wrappedLines (SdlPrintT.splitLF (T d)) (120 - indentLen)
-
-/-- `descTextOK` WITHOUT the width clause: the shape conditions are asked of the WRAPPED lines -/
-def descWrapOK (indentLen : Nat) (d : String) : Bool :=
-  let t := T d
-  let lines := wrappedOf indentLen d
-  let first := lines.headD []
-  let oneLine := lines.length == 1 && first.length < 70 && !(first.getLast? == some 34)
-  let lead := first.length > (SdlPrintT.lstrip first).length
-  !d.isEmpty && !t.isEmpty && t.all (fun c => (32 ≤ c || c == 9 || c == 10)) &&
-  !lineBlank first && !lineBlank (lines.getLastD []) &&
-  (if oneLine then !(first.getLast? == some 92)
-   else if lead then (lines.length == 1 || minIndentZero (lines.drop 1))
-   else minIndentZero lines)
-
 /-- when no line is over-long the wrapped lines are the lines, and `descWrapOK` is `descTextOK` without its width clause -/
 theorem wrappedOf_short (w : Nat) (d : String) (h : ∀ l ∈ SdlPrintT.splitLF (T d), l.length ≤ 120 - w) :
     wrappedOf w d = SdlPrintT.splitLF (T d) := wrappedLines_id _ _ h
